@@ -388,22 +388,27 @@ def find_msg(case, name):
     return None
 
 
+EMBED_BELOW_ROOT = set()   # paths of fields of an embedded message whose embedding message occurs below a root
+
+
 def occurrences(case, roots, max_depth=6):
     """(path, typeName, field, message) for every field occurrence below the roots (README path rule);
     nothing below an excluded field"""
     out = []
     excluded = set(((case.get('yaml') or {}).get('excludeFields')) or [])
 
-    def walk(m, path, depth):
+    def walk(m, path, depth, via_embed=False):
         if depth > max_depth:
             return
         for f in m['fields']:
             if f.get('embed'):
                 sub = find_msg(case, f['typeName'])
-                if sub and (m['name'] + '.' + f['name']) not in excluded and m['name'] not in excluded:
-                    walk(sub, path, depth + 1)
+                if sub and (m['name'] + '.' + f['name']) not in excluded and path not in excluded:
+                    walk(sub, path, depth + 1, True)
                 continue
             out.append((path + '.' + f['name'], m['name'] + '.' + f['name'], f, m))
+            if via_embed and '.' in path:
+                EMBED_BELOW_ROOT.add(path + '.' + f['name'])
             if (path + '.' + f['name']) in excluded or (m['name'] + '.' + f['name']) in excluded:
                 continue
             if f['type'] == 'message':
@@ -676,6 +681,11 @@ def eval_c11(batches, tier, seed, known, info):
         for k in range(4 if tier == 'quick' else 12):
             o = rnd.choice(occ)
             form = rnd.choice(['path', 'typeName'])
+            deep = [x for x in occ if x[0] in EMBED_BELOW_ROOT]
+            if deep and k % 2 == 1:
+                # directed: a field of an embedded message in a nested occurrence, addressed by its full path
+                o, form = rnd.choice(deep), 'path'
+                nkey['embedded_below_root'] = nkey.get('embedded_below_root', 0) + 1
             key = o[0] if form == 'path' else o[1]
             if o[0] in excluded or o[1] in excluded:
                 continue
@@ -714,9 +724,7 @@ def eval_c11(batches, tier, seed, known, info):
                 out['violations'].append({'kind': 'an option keyed for one field changed other attributes', 'variant': v['dir'], 'key': key,
                                           'changed': changed[:6], 'addressed_occurrences': n_addr})
             if len(changed) == 0 and n_addr - already > 0 and not hidden_by_exclusion(o, excluded):
-                if 'F9' in known and o[3]['name'] != o[0].split('.')[0] and form == 'path' and under_embed(b['case'], o):
-                    out['known']['F9'] = out['known'].get('F9', 0) + 1
-                else:
+                if True:
                     out['violations'].append({'kind': 'an option keyed ' + form + ' had no effect', 'variant': v['dir'], 'key': key})
         # exclusion: schema of the variant = schema of the base minus the addressed attributes
         for k in range(2 if tier == 'quick' else 6):
